@@ -360,7 +360,10 @@ class Interp:
                 return v
             k = (v.id, p)
             if k not in st.symfields:
-                st.symfields[k] = Sym("%s.%s" % (v.name, p), "")
+                # the internals of an opaque owning pointer (Box -> Unique -> NonNull -> pointer, as MIR spells `*boxed`) stand for the
+                # value itself: what is known about it is kept
+                keep = v.attrs if (p in ("0", "pointer") and v.attrs and not (set(v.attrs) & {"adt", "make_variant"})) else None
+                st.symfields[k] = Sym("%s.%s" % (v.name, p), "", attrs=keep)
             return st.symfields[k]
         if isinstance(v, Top):
             return Top(v.why)
@@ -1043,6 +1046,22 @@ class Interp:
                 for b in self.facts.bodies.values():
                     if b.get("kind") == "AssocFn" and b.get("name") == mname and (b.get("impl_trait") or "").split("<")[0] == c["trait"] and b.get("impl_self") == ty:
                         return list(self._call_body(st, b, args, depth + 1))
+        if body is None and "resolved" not in c and c.get("trait") and fr.tparams:
+            # static trait call on a type built from bound type parameters: <Paseto<'t, Version, Purpose> as OpenToken<'t, Key>>::open(..)
+            m = re.match(r"<(.+) as (.+)>::(\w+)$", M.callee_name(c))
+            if m:
+                def subst(txt):
+                    for k_, v_ in fr.tparams.items():
+                        txt = re.sub(r"(?<![\w:'])%s(?![\w:])" % re.escape(k_), lambda _m, v_=v_: v_, txt)
+                    return re.sub(r"'\w+", "'_", txt).replace(" ", "")
+                want_self, want_trait = subst(m.group(1)), subst(m.group(2))
+                nrm = lambda txt: re.sub(r"'\w+", "'_", txt or "").replace(" ", "")
+                cands = [b for b in self.facts.bodies.values()
+                         if b.get("kind") == "AssocFn" and b.get("name") == m.group(3) and (b.get("impl_trait") or "").split("<")[0] == c["trait"] and nrm(b.get("impl_self")) == want_self]
+                exact = [b for b in cands if nrm(b.get("impl_trait")) == want_trait]
+                pick = exact[0] if len(exact) == 1 else (cands[0] if len(cands) == 1 else None)
+                if pick is not None:
+                    return list(self._call_body(st, pick, args, depth + 1))
         if body is None and "resolved" not in c and c.get("trait") and args:
             # trait method on a type parameter of a generic body: dispatch on the run-time shape of the receiver
             dyn = self.dyn_dispatch(st, c, args[0])
